@@ -14,11 +14,11 @@ CLAUSE = {1: "missing-call", 2: "call-for-unreachable", 3: "called-twice", 4: "e
           5: "quiet-link-called", 6: "mutation-raised", 7: "call-without-change"}
 FIELD = {0: "value", 1: "f", 2: "g", 3: "kids", 4: "m", 5: "s", 6: "list_items", 7: "dict_items", 8: "set_items",
          10: "trait_added", 11: "trait_modified", 12: "x1", 13: "x2", 14: "groups", 17: "groups_items",
-         15: "kidsI", 18: "kidsI_items"}
+         15: "kidsI", 18: "kidsI_items", 16: "cdef"}
 # FilteredTraitObserver nodes (DESIGN 6 C08: "filters are modelled as a set of matching names supplied by the
 # harness"): the model node carries the list of trait names the filter matches on class N; the dynamic traits
 # 12, 13 exist on an object only after add_trait (the model gates every name by trait existence)
-FILTERS = {"anytrait": [0, 1, 2, 3, 4, 5, 10, 11, 12, 13, 14, 15],   # expression.anytrait(): leaf only (mixed value types)
+FILTERS = {"anytrait": [0, 1, 2, 3, 4, 5, 10, 11, 12, 13, 14, 15, 16],   # expression.anytrait(): leaf only (mixed value types)
            "tag": [1, 2, 13],                        # expression.metadata("tag"): f, g (and the dynamic x2) carry tag=True
            "tagc": [3],                              # expression.metadata("tagc"): the List trait kids carries tagc=True
            "match_fg": [1, 2],                       # expression.match(lambda name, trait: name in ("f", "g"))
@@ -828,6 +828,11 @@ def corpus():
         ["SetCont", 0, 5, [1, 2, 3], False], ["Observe", 0, 0, siv],
         ["Cop", 5, 8, "intersect2", [[1, 3, 4], [1, 2]], [1, 2, []]]] + probes_for(5) + [
         ["Cop", 5, 8, "intersect2", [[1], [4]], [0, 1, []]]] + probes_for(5)))
+    # a link whose default is a CONSTANT observable object, first read after observe(): the default (number 3) is hooked
+    cv = [16, True, False, [[0, True, False, []]]]
+    for style in (0, 1):
+        cs.append(dict(npool=3, shape="acyclic", cdef=[0, style], ops=[
+            ["Observe", 0, 0, cv], ["Touch", 0, 16], ["Probe", 3], ["SetRef", 0, 16, 1], ["Probe", 3], ["Probe", 1]]))
     # a GENUINE trait whose name ends in '_items', added after observe() and matched by an optional named observer
     xiv = [13, True, True, [[0, True, False, []]]]
     cs.append(dict(npool=3, shape="acyclic", itemsname=True, ops=[
@@ -1019,6 +1024,48 @@ def gen_dyn_case(rnd, ctx):
     return dict(npool=npool, shape="acyclic", ops=ops, itemsname=itemsname)
 
 
+def gen_const_case(rnd, ctx):
+    """A link whose default is a CONSTANT observable object (`cdef = Any(D)`, or an inherited Instance default
+    overridden by `cdef = D`): the default enters the heap when the trait is first read (model: Touch; the new
+    object gets the next free number), before or after observe(); then it is probed, replaced, probed again."""
+    npool = 4
+    o = rnd.choice([0, 0, 1])
+    n1, n2 = rnd.random() < 0.7, rnd.random() < 0.7
+    V = [0, True, False, []]
+    tail = rnd.choice([[V], [V], [[1, n2, False, [V]], V], [[16, n2, False, [V]]]])
+    g = [16, n1, False, tail]
+    if o == 1:
+        g = [1, n2, False, [g]]
+    ops = []
+    if o == 1:
+        ops.append(["SetRef", 0, 1, 1])
+    D = npool                      # the number the default object gets when it is read (no container before it)
+    early = rnd.random() < 0.3
+    if early:
+        ops.append(["Touch", o, 16])
+    ops.append(["Observe", 0, 0, g])
+    ops += probes_for(npool) + ([["Probe", D]] if early else [])
+    if not early:
+        ops.append(["Touch", o, 16])
+    live = list(range(npool)) + [D]
+    ops += [["Probe", x] for x in live]
+    for _ in range(rnd.randint(1, 4)):
+        r = rnd.random()
+        if r < 0.35:
+            ops.append(["SetRef", D, 1, rnd.choice([2, 3, None])])       # a link of the default object itself
+        elif r < 0.7:
+            ops.append(["SetRef", o, 16, rnd.choice([2, 3, None])])      # the default is replaced
+        elif r < 0.85:
+            ops.append(["Touch", o, 16])                                  # a later read changes nothing
+        else:
+            ops.append(["Unobserve", 0, 0, g])
+            ops += [["Probe", x] for x in live]
+            break
+        ops += [["Probe", x] for x in live]
+    ctx.count("const-default:%s" % ("read-before-observe" if early else "read-after-observe"))
+    return dict(npool=npool, shape="acyclic", ops=ops, cdef=[o, rnd.randrange(2)])
+
+
 def truncate_replays(ctx):
     """Replay files keep only the history up to the failing step (container numbering depends on the
     prefix, so operations are never deleted from the middle)."""
@@ -1081,6 +1128,7 @@ def run(ctx):
     else:
         cases = corpus() + [gen_case(rnd, ctx, maxmut) for _ in range(n)]
         cases += [gen_dyn_case(rnd, ctx) for _ in range(n // 4)]       # histories with add_trait
+        cases += [gen_const_case(rnd, ctx) for _ in range(max(20, n // 25))]   # constant observable defaults
         cases += [gen_strict_case(rnd, ctx) for _ in range(max(20, n // 50))]  # non-optional observers that fail
         import os
         for i in range(int(os.environ.get("VERIF_C08_CYCLE_SEARCH", "0"))):   # development aid: look for F14 triggers
